@@ -446,6 +446,114 @@ def extract_fn(relpath, qual, ann):
     return text, lm, src, ed.log, labels, it
 
 
+def extract_segment(relpath, qual, ann):
+    """M4 - statement-range slice: top-level statements [from..to) of a function become a standalone function whose
+    parameters are the free locals (declared in the unit). Everything before `from` is dropped: the parameters are
+    arbitrary, i.e. the contract holds for every state/values that can reach this point."""
+    it, parent, src = find_item(relpath, qual, ("fn",))
+    def norm(x): return re.sub(r"\s+", " ", src[x["span"][0]:x["span"][1]].decode())
+    # the block (top-level body or a nested block) that owns the unique statement starting with `from`
+    cands = [("top", it["stmts"])] + [("nested", b["stmts"]) for b in it.get("blocks", [])]
+    owners = [(kind, stl) for (kind, stl) in cands if sum(1 for x in stl if norm(x).startswith(ann["seg_from"])) == 1]
+    total = sum(sum(1 for x in stl if norm(x).startswith(ann["seg_from"])) for (_, stl) in cands)
+    if not owners or total != 1:
+        raise Inconclusive(f"anchor lost: M4 segment from={ann['seg_from']!r} matches {total} statements of {qual}")
+    nested_block = owners[0][0] == "nested"
+    st = owners[0][1]
+    def find_stmt(prefix, what):
+        hits = [k for k, x in enumerate(st) if norm(x).startswith(prefix)]
+        if len(hits) != 1:
+            raise Inconclusive(f"anchor lost: M4 segment {what}={prefix!r} matches {len(hits)} statements of the block in {qual}")
+        return hits[0]
+    k0 = find_stmt(ann["seg_from"], "from")
+    k1 = find_stmt(ann["seg_to"], "to") if ann.get("seg_to") else len(st)
+    if k1 <= k0:
+        raise Inconclusive(f"M4 segment of {qual}: empty range")
+    s0, e0 = st[k0]["span"][0], st[k1 - 1]["span"][1]
+    # reuse the fn-level machinery on a pseudo item restricted to the range
+    ed = Edits(src, s0, e0, relpath)
+    def inside(sp): return s0 <= sp[0] and sp[1] <= e0
+    n = 0
+    for c in it.get("closures", []):
+        if not inside(c["span"]): continue
+        for pp in c["params"]:
+            if pp["wild"]:
+                ed.add(pp["span"][0], pp["span"][1], f"_p{n}", "R1"); n += 1
+    seg_closures = [c for c in it.get("closures", []) if inside(c["span"])]
+    for k, ctext in (ann.get("closures") or {}).items():
+        k = int(k)
+        if k >= len(seg_closures):
+            raise Inconclusive(f"anchor lost: closure #{k} of segment of {qual}")
+        c = seg_closures[k]
+        ed.add(c["or2_end"], c["or2_end"], " " + ctext.strip() + " ", "A1")
+        if not c["body_is_block"]:
+            ed.add(c["body"][0], c["body"][0], "{ ", "A1"); ed.add(c["body"][1], c["body"][1], " }", "A1")
+    if ann.get("drop_response_attrs", True):
+        for m in it.get("mcalls", []):
+            if m["name"] in ATTR_RESP_METHODS and inside(m["span"]):
+                ed.add(m["recv_end"], m["span"][1], "", "R6", "." + m["name"] + "(..) removed")
+    for a in it.get("inner_attrs", []):
+        if not inside(a["span"]): continue
+        if a["path"] == "cfg":
+            if eval_cfg(a["text"]):
+                ed.add(a["span"][0], a["span"][1], "", "R3", "cfg true: " + a["text"])
+            else:
+                o = a["owner"]; end = o[1]
+                mm = re.match(rb"\s*[,;]", src[end:end + 8])
+                if mm: end += mm.end()
+                ed.add(a["span"][0], end, "", "R3", "cfg false dropped: " + a["text"])
+        elif a["path"] in ("allow", "doc"):
+            ed.add(a["span"][0], a["span"][1], "", None)
+    for name, ptext in (ann.get("before_let") or {}).items():
+        hits = [l for l in it["lets"] if l["name"] == name and inside(l["span"])]
+        if not hits: raise Inconclusive(f"anchor lost: let {name} in segment of {qual}")
+        ed.add(hits[0]["span"][0], hits[0]["span"][0], ptext.rstrip() + "\n", "A1")
+    for name, ptext in (ann.get("after_let") or {}).items():
+        hits = [l for l in it["lets"] if l["name"] == name and inside(l["span"])]
+        if not hits: raise Inconclusive(f"anchor lost: let {name} in segment of {qual}")
+        ed.add(hits[0]["span"][1], hits[0]["span"][1], "\n" + ptext.rstrip() + "\n", "A1")
+    for (rule, old, new) in ann.get("replaces") or []:
+        ob = old.strip().encode(); body = src[s0:e0]; cnt = body.count(ob)
+        every = rule.endswith(" all"); rule = rule.split()[0]
+        if cnt < 1 or (cnt != 1 and not every):
+            raise Inconclusive(f"anchor lost: rewrite {rule} snippet found {cnt} times in segment of {qual}")
+        pos = 0
+        while True:
+            q = body.find(ob, pos)
+            if q < 0: break
+            ed.add(s0 + q, s0 + q + len(ob), new.strip(), rule, "catalogue desugaring: " + old.strip()[:60]); pos = q + len(ob)
+    if ann.get("tail") and k1 == len(st):
+        ed.add(st[-1]["span"][0], st[-1]["span"][0], ann["tail"].rstrip() + "\n", "A1")
+    body_text, segs = ed.render()
+    labels = []
+    spec = []
+    if ann.get("requires"):
+        spec.append("    requires\n" + ann["requires"].rstrip() + "\n")
+    if ann.get("ensures"):
+        spec.append("    ensures\n")
+        for (label, text) in ann["ensures"]:
+            t = text.strip()
+            if not t.endswith(","): t += ","
+            spec.append(f"        /*@L {label}*/ {t}\n"); labels.append(label)
+    rs, re_ = it["ret"] if it["ret"] else (None, None)
+    rett = src[rs:re_].decode() if rs is not None else "()"
+    if k1 != len(st):
+        rett = ann.get("seg_ret", rett)
+    name = ann["seg_name"]
+    retname = ann.get("ret", "r")
+    head = f"pub fn {name}({ann['seg_params'].strip()}) -> ({retname}: {rett})\n" + "".join(spec) + "{\n" + (ann.get("head", "").rstrip() + "\n" if ann.get("head") else "")
+    tailtxt = ("\n" + ann["seg_tail"].rstrip() if ann.get("seg_tail") else "") + "\n}\n"
+    lm0 = line_map(body_text, segs, src)
+    text = head + body_text + tailtxt
+    lm = [None] * head.count("\n") + lm0 + [None] * (tailtxt.count("\n") + 1)
+    ed.log.append({"file": relpath, "line": _srcline(src, s0), "rule": "M4",
+                   "note": ("(inside a nested block whose value is the function's result) " if nested_block else "") + f"statements {k0}..{k1 - 1} of {qual} extracted as `{name}`; the {k0} statements before are dropped (their effects are arbitrary parameter values)" + (f"; the {len(st) - k1} statements after are dropped" if k1 != len(st) else "")})
+    for pat, rep in ((r"&mut dyn Storage", "&mut Storage"), (r"&dyn Storage", "&Storage"), (r"&dyn Api", "&Api")):
+        text = text.replace(pat, rep)
+    fake = dict(it); fake["span"] = [s0, e0]
+    return text, lm, src, ed.log, labels, fake
+
+
 def _subst(text, segs, pat, rep):
     # textual replace keeping the line structure (no newlines in pat/rep), adjust segs approx by lines only
     return text.replace(pat, rep), segs
